@@ -276,7 +276,10 @@ def rawChecks (prop : String) (line implLine : String) : Option String :=
 def extChecks (line implLine : String) : Option String :=
   if implLine.startsWith "panic" then some "panicked" else
   match Sexp.parse line, parseRaw implLine with
-  | some (.list [.atom "ext", _, .list acts]), some p =>
+  | some (.list [.atom "ext", cmd, .list acts]), some p =>
+    let (twoStage, innerOp) : Bool × Nat := match cmd with
+      | .list [.atom "chain", .atom "stream", _, _, .list [.list [.atom "tstream", .atom b]], _] => (true, b.toNat?.getD 0)
+      | _ => (false, 0)
     match acts.mapM parseAction with
     | none => some "unparseable-case"
     | some acts =>
@@ -285,12 +288,20 @@ def extChecks (line implLine : String) : Option String :=
         match steps, acts with
         | [], _ => none
         | st :: steps', a :: acts' =>
+          let reqs0 := reqs
           let reqs := match a with
             | some (.res k _) =>
               if st.res == "ok" then modifyNth reqs k (fun (c, g) => if c == 'o' then (c, true) else (c, g)) else reqs
             | some (.drop k) => modifyNth reqs k (fun (c, _) => (c, true))
             | _ => reqs
           let reqs := reqs ++ st.effs.map fun e => (e.kind, e.kind == 'n')
+          -- fan-out clause for the plain two-stage chain `stream(a).then_stream(|x| stream(b))`: every item the shell delivers
+          -- on the outer stream (request 0, accepted) starts exactly one inner stream in that very step, however many are open
+          let fanout : Bool := match a with
+            | some (.res 0 _) => twoStage && st.res == "ok" && (reqs0.getD 0 ('?', true)).2 == false &&
+                (st.effs.filter fun e => e.n == innerOp && e.kind == 'm').length != 1
+            | _ => false
+          if fanout then some "inner-stream-not-started" else
           let allGone := !reqs.isEmpty && reqs.all (·.2)
           if allGone && tailTok "d" st.tail != some "1" then
             -- two known mechanisms, told apart by the construct the command uses: a request future polled once and then
